@@ -120,7 +120,21 @@ def _structure(repo):
             h_calls = [_dotted(c.func) for h in t.handlers for c in _calls(h.body)]
             if "asyncio.wait_for" in body_calls and "_handle_timeout" in h_calls:
                 wf = True
-    return names[0], fin_ok, pool_cm, closes and raises, wf
+    # cancellation reaches the wrapped call: every call of wrapped_func in the asyncio decorate() is awaited on the spot
+    # or is the awaitable handed to asyncio.wait_for (which cancels and awaits it when it is cancelled itself); a wrapped
+    # call started any other way (a task of its own, asyncio.wait, gather, shield ...) is not tied to the model's c_cancel
+    direct = set()
+    for n in ast.walk(async_dec[0]):
+        if isinstance(n, ast.Await) and isinstance(n.value, ast.Call):
+            c = n.value
+            if _dotted(c.func) == "wrapped_func":
+                direct.add(id(c))
+            elif _dotted(c.func) == "asyncio.wait_for" and c.args and isinstance(c.args[0], ast.Call) \
+                    and _dotted(c.args[0].func) == "wrapped_func":
+                direct.add(id(c.args[0]))
+    wrapped_calls = [c for c in _calls([async_dec[0]]) if _dotted(c.func) == "wrapped_func"]
+    cancel_ok = bool(wrapped_calls) and all(id(c) in direct for c in wrapped_calls)
+    return names[0], fin_ok, pool_cm, closes and raises, wf, cancel_ok
 
 
 def generate(outdir, repo=None):
@@ -142,7 +156,7 @@ def generate(outdir, repo=None):
     for k, v in mp.items():
         if decorators._get_timeout_message(k) != v:
             raise ValueError("_get_timeout_message(%r) is not the map entry" % k)
-    thread_classes, fin_ok, pool_cm, closes, wf = _structure(repo)
+    thread_classes, fin_ok, pool_cm, closes, wf, cancel_ok = _structure(repo)
     decorated = _decorated(repo)
     nt = Settings.NO_TERMINATE_ON_TIMEOUT
     if not isinstance(nt, bool):
@@ -164,7 +178,8 @@ def generate(outdir, repo=None):
          "Definition gen_signal_finally_restores : bool := %s." % _bool(fin_ok),
          "Definition gen_pool_joins_worker : bool := %s." % _bool(pool_cm),
          "Definition gen_handle_timeout_closes_and_raises : bool := %s." % _bool(closes),
-         "Definition gen_async_wait_for_handled : bool := %s." % _bool(wf)]
+         "Definition gen_async_wait_for_handled : bool := %s." % _bool(wf),
+         "Definition gen_async_cancel_reaches_wrapped : bool := %s." % _bool(cancel_ok)]
     text = "\n".join(L) + "\n"
     path = os.path.join(outdir, "Gen_Timeout.v")
     if not os.path.exists(path) or open(path).read() != text:
@@ -173,7 +188,8 @@ def generate(outdir, repo=None):
             "decorated": ["%s.%s%s" % (c, f, " (async)" if a else "") for c, f, a in decorated],
             "no_terminate_default": nt, "timeout_ops_default": t_ops, "timeout_transport_default": t_tr,
             "ast": {"signal_finally_restores": fin_ok, "pool_joins_worker": pool_cm,
-                    "handle_timeout_closes_and_raises": closes, "async_wait_for_handled": wf}}
+                    "handle_timeout_closes_and_raises": closes, "async_wait_for_handled": wf,
+                    "async_cancel_reaches_wrapped": cancel_ok}}
     return path, info
 
 
